@@ -32,7 +32,14 @@ func genFor(model string) func(t *rapid.T) Case {
 				maxT = 3000
 			}
 		}
-		c := Case{A: simref.DrawCellCase(t, name, 1, maxT)}
+		minT := 1
+		if rapid.IntRange(0, 2).Draw(t, "longEnough") > 0 {
+			minT = 20
+		}
+		c := Case{A: simref.DrawCellCase(t, name, minT, maxT)}
+		if rapid.Bool().Draw(t, "stormy") {
+			simref.Stormy(t, c.A.Inputs[0])
+		}
 		if name == "GR4J" {
 			// classes: x2 <= 0 (no import of water), and the exactly closing case x2 = 0, PET = 0
 			k := rapid.IntRange(0, 3).Draw(t, "gr4jclass")
